@@ -52,9 +52,7 @@ impl Stage {
     /// write out and read back with a self-describing format (serde_json): the derives promise this for every format
     pub fn restore_json(&self) -> Result<Vec<u8>, String> {
         fn rt<T: serde::Serialize + serde::de::DeserializeOwned>(x: &T) -> Result<Vec<u8>, String> {
-            let js = serde_json::to_vec(x).map_err(|e| format!("to JSON: {}", e))?;
-            let back: T = serde_json::from_slice(&js).map_err(|e| format!("from JSON: {}", e))?;
-            Ok(wire::ser(&back))
+            wire::json_roundtrip_all(x)
         }
         match self {
             Stage::Requested(x) => rt(x),
